@@ -385,9 +385,20 @@ TypeClauses(e) ==
         dk == kn /\ T # "Amount"
         exp == ExpectedOrder(T)
         isref == e.kind = "ref"
+        gen == dk /\ Decl.types[T].crate = "gen"
+        declIds == IF dk THEN {DUnits(T)[i].id : i \in DOMAIN DUnits(T)} ELSE {}
+        sameSet == Seq2Set(e.iter) = declIds
     IN << Cl("C09.known_type", TRUE, kn),
           Cl("C09.kind", dk, e.kind = DKind(T)),
-          Cl("C09.iter_exact", dk, e.iter = exp),
+          Cl("C09.iter_exact", dk /\ (sameSet \/ gen), e.iter = exp),
+          \* the catalogue is a lower bound: units the declared catalogue does not know are judged by the generic
+          \* rules only (declared ones keep their declared relative order; the whole iteration is ordered by scale)
+          Cl("C09.iter_superset", dk /\ ~sameSet /\ ~gen,
+                 /\ SelectSeq(e.iter, LAMBDA u : u \in declIds) = exp
+                 /\ (isref /\ OKnownT(T)) =>
+                        /\ Len(e.iter) = Len(OUnits(T))
+                        /\ \A i \in DOMAIN e.iter : OUnits(T)[i].id = e.iter[i]
+                        /\ \A i \in 1..(Len(e.iter) - 1) : XLe(OUnits(T)[i].scale, OUnits(T)[i + 1].scale)),
           Cl("C09.iter_units", kn, e.iter_units = e.iter),
           Cl("C09.consts", dk,
                  /\ Len(e.consts) = Len(DUnits(T))
@@ -454,7 +465,11 @@ UnitClauses(e) ==
         firstScale == IdOrDash(T, FirstIdx(T, LAMBDA u : XEq(u.scale, e.scale)))
         \* predefined quantities are judged under C07, generated / synthetic declarations under C11
         P == IF kn /\ Decl.types[T].crate = "gen" THEN "C11" ELSE "C07"
-    IN << Cl("C09.declared_unit", T # "Amount", kn),
+        gen == DKnownT(T) /\ Decl.types[T].crate = "gen"
+    IN << Cl("C09.declared_unit", T # "Amount" /\ (gen \/ ~DKnownT(T)), kn),
+          \* a catalogue unit the declared catalogue does not know: no published definition to compare with;
+          \* reported as a note (generic rules still apply to it), never as a violation
+          Cl("NOTE.unit_not_in_catalogue", T # "Amount" /\ DKnownT(T) /\ ~gen, kn),
           Cl(P \o ".symbol", kn, e.sym.cp = du.sym_cp /\ e.display.cp = du.sym_cp),
           Cl(P \o ".name", kn, e.name.cp = du.name_cp),
           Cl(P \o ".prefix", kn, e.pfx = du.pfx),
